@@ -12,6 +12,8 @@ rows=[]
 try:
     for n in names:
         d='seeded/'+n
+        if not os.path.exists(d+'/meta.json'):
+            rows.append((n,'not kept (no meta.json)','')); continue
         meta=json.load(open(d+'/meta.json'))
         props=meta.get('check_with') or [meta['property']]
         patch=os.path.abspath(d+'/patch.diff')
